@@ -79,6 +79,26 @@ pub fn phase_texts(len: usize) -> Vec<Vec<u8>> {
 
 /// Decode-side raw values for kind `k` (beyond the all-short-strings family, which is generated
 /// separately): every length 0..=800 x content patterns + type-specific exhaustive parts.
+/// Byte sequences from the classic UTF-8 decoder stress test (M. Kuhn) and its relatives: what other
+/// encoders produce for the same characters and a strict UTF-8 decoder must refuse - UTF-16 surrogates
+/// as 3-byte sequences, alone, in pairs (CESU-8, Java "modified UTF-8") and in the wrong order; overlong
+/// forms (C0 80 for NUL among them); code points above U+10FFFF; 5- and 6-byte forms; lone continuation
+/// and lead bytes; FE / FF - and the boundary characters that it must accept.
+pub fn utf8_stress() -> Vec<Vec<u8>> {
+    let mut v: Vec<Vec<u8>> = vec![
+        vec![0xED, 0xA0, 0x80], vec![0xED, 0xAD, 0xBF], vec![0xED, 0xAE, 0x80], vec![0xED, 0xAF, 0xBF], vec![0xED, 0xB0, 0x80], vec![0xED, 0xBE, 0x80], vec![0xED, 0xBF, 0xBF],
+        vec![0xED, 0xA0, 0xBD, 0xED, 0xB8, 0x80], vec![0xED, 0xA0, 0x80, 0xED, 0xB0, 0x80], vec![0xED, 0xAF, 0xBF, 0xED, 0xBF, 0xBF], vec![0xED, 0xAD, 0xBF, 0xED, 0xB0, 0x80], vec![0xED, 0xB8, 0x80, 0xED, 0xA0, 0xBD],
+        vec![0xC0, 0x80], vec![0xC0, 0xAF], vec![0xC1, 0xBF], vec![0xE0, 0x80, 0xAF], vec![0xE0, 0x9F, 0xBF], vec![0xF0, 0x80, 0x80, 0xAF], vec![0xF0, 0x8F, 0xBF, 0xBF],
+        vec![0xF4, 0x90, 0x80, 0x80], vec![0xF5, 0x80, 0x80, 0x80], vec![0xF7, 0xBF, 0xBF, 0xBF], vec![0xF8, 0x88, 0x80, 0x80, 0x80], vec![0xFC, 0x84, 0x80, 0x80, 0x80, 0x80],
+        vec![0x80], vec![0xBF], vec![0x80, 0xBF], vec![0xC2], vec![0xE2, 0x82], vec![0xF0, 0x9F, 0x98], vec![0xFE], vec![0xFF], vec![0xFE, 0xFE, 0xFF, 0xFF], vec![0xEF, 0xBF],
+    ];
+    // accepted: the first and last character of every encoded length, noncharacters, the replacement character
+    for s in ["\u{0}", "\u{7f}", "\u{80}", "\u{7ff}", "\u{800}", "\u{ffff}", "\u{10000}", "\u{10ffff}", "\u{d7ff}", "\u{e000}", "\u{fffd}", "\u{fdd0}", "\u{1f600}"] {
+        v.push(s.as_bytes().to_vec());
+    }
+    v
+}
+
 pub fn decode_values(k: Kind, tier: Tier) -> Vec<Vec<u8>> {
     let mut out: Vec<Vec<u8>> = Vec::new();
     let max_len = 800;
@@ -97,9 +117,22 @@ pub fn decode_values(k: Kind, tier: Tier) -> Vec<Vec<u8>> {
         for (v, _) in encode_values(k, 1) {
             out.push(v);
         }
+        for v in utf8_stress() {
+            out.push(v.clone());
+            let mut w = b"pjnath ".to_vec();
+            w.extend_from_slice(&v);
+            out.push(w.clone());
+            w.extend_from_slice(b" tail");
+            out.push(w);
+        }
     }
     match k {
         Kind::ErrorCode => {
+            for s in utf8_stress() {
+                let mut v = vec![0, 0, 4, 1, b'r', b' '];
+                v.extend_from_slice(&s);
+                out.push(v);
+            }
             for reason in [&b""[..], b"x", &[0xC3u8][..], &[b'a'; 763][..], &[b'a'; 764][..], "\u{2603}".as_bytes(), &[b'a'; 127][..], &[b'a'; 128][..]] {
                 for class in 0..=255u8 {
                     for number in 0..=255u8 {
